@@ -34,6 +34,7 @@ func isLenReadIns(i ssa.Instruction) bool {
 
 func c07(r *Run) {
 	w := r.W
+	r.optionPlumbed("C07.R4:read-timeout-option-applied", "the read timeout configured on the event loop (WithReadTimeout) is the value installed as the connection's read timeout", "WithReadTimeout", "(*connection).SetReadTimeout")
 	ro := r.roles()
 	px := protoEffects(w)
 	_ = px
